@@ -236,6 +236,7 @@ def run_impl(descr) -> Dict[str, Any]:
         heap, r, anomalies = c04.dump(own, reverse=True)
         out.update(heap=heap, root=r, anomalies=anomalies, py_iso=c04.py_iso(root, own), via=[n for n, _ in backs], _back=own)
         out["chain_disagree"] = [f"{n}: {c04.py_iso(own, b)}" for n, b in backs[1:] if c04.py_iso(own, b) is not None]
+        out["_root"], out["_backs"] = root, [b for _n, b in backs]
     except RecursionError:
         out["exc"] = "RecursionError"
     except Exception as e:  # noqa
@@ -258,38 +259,74 @@ def selfref_groups(d: dict) -> List[Tuple[str, List[int]]]:
     return [(f, s) for (f, _t), s in sorted(srcs.items()) if len(s) >= 2]
 
 
-def admissible_outcomes(d: dict, cap: int = 64):
-    """What a reload may legitimately look like given the two modelled SQLAlchemy behaviours whose details depend on
-    the unit-of-work order: of the sources sharing a self-referential target exactly ONE keeps its link (any one);
-    collections come back with first occurrences only."""
-    import copy
-    import itertools
-    groups = selfref_groups(d)
-    for n, choice in enumerate(itertools.product(*[s for _f, s in groups])):
-        if n >= cap:
-            return
-        c = copy.deepcopy(d)
-        for (f, srcs), keep in zip(groups, choice):
-            for i in srcs:
-                if i != keep:
-                    c["objs"][i]["r"][f] = []
-        for o in c["objs"]:
-            for f, kind, _t, _o in c04.REFS.get(o["c"], []):
-                if kind == "many":
-                    seen: List[int] = []
-                    for k in o["r"].get(f, []):
-                        if k not in seen:
-                            seen.append(k)
-                    o["r"][f] = seen
-        yield c04.prune(c)
-
-
 def matches_admissible(d: dict, back) -> bool:
-    for c in admissible_outcomes(d):
-        objs = c04.build(c)
-        if c04.py_iso(objs[c["root"]], back) is None:
-            return True
-    return False
+    """Is [back] what a reload may legitimately look like, given the two modelled SQLAlchemy behaviours whose details
+    depend on the unit-of-work order?  Relaxed identity-tracking bisimulation between the input graph and [back]:
+    * a collection comes back with the first occurrences of its elements only;
+    * for every target of a self-referential single reference that has >= 2 sources (a group), a source may have lost
+      the link (None); at most ONE source of a group keeps it, and if no visited source keeps it some source of the group
+      must be unreachable in the reloaded graph (the keeper).  Everything else must agree exactly."""
+    objs = c04.build(d)
+    idx = {id(o): i for i, o in enumerate(objs)}
+    group_of: Dict[Tuple[str, int], Tuple[str, int]] = {}
+    sizes: Dict[Tuple[str, int], int] = {}
+    for f, srcs in selfref_groups(d):
+        t = d["objs"][srcs[0]]["r"][f][0]
+        sizes[(f, t)] = len(srcs)
+        for sidx in srcs:
+            group_of[(f, sidx)] = (f, t)
+    kept: Dict[Tuple[str, int], int] = {}
+    seen_src: Dict[Tuple[str, int], int] = {}
+    m_ab: Dict[int, Any] = {}
+    m_ba: Dict[int, Any] = {}
+    stack = [(objs[d["root"]], back)]
+    while stack:
+        x, y = stack.pop()
+        if x is None or y is None:
+            if x is not y:
+                return False
+            continue
+        if type(x) is not type(y):
+            return False
+        if id(x) in m_ab:
+            if m_ab[id(x)] is not y:
+                return False
+            continue
+        if id(y) in m_ba:
+            return False
+        m_ab[id(x)] = y
+        m_ba[id(y)] = x
+        cn = type(x).__name__
+        for f in c04.SCAL.get(cn, []):
+            if not c04.has_scalar(y, f) or c04.scalar_key(c04.get_scalar(x, f)) != c04.scalar_key(c04.get_scalar(y, f)):
+                return False
+        for f, kind, _t, _opt in c04.REFS.get(cn, []):
+            u, v = getattr(x, f), getattr(y, f, None)
+            if kind == "one":
+                g = group_of.get((f, idx.get(id(x), -1)))
+                if g is not None:
+                    seen_src[g] = seen_src.get(g, 0) + 1
+                    if v is None:
+                        continue
+                    kept[g] = kept.get(g, 0) + 1
+                stack.append((u, v))
+            else:
+                first: List[Any] = []
+                for e in u:
+                    if not any(e is z for z in first):
+                        first.append(e)
+                try:
+                    v = list(v)
+                except TypeError:
+                    return False
+                if len(first) != len(v):
+                    return False
+                stack.extend(zip(first, v))
+    for g, n in sizes.items():
+        k = kept.get(g, 0)
+        if k > 1 or (k == 0 and seen_src.get(g, 0) >= n):
+            return False
+    return True
 
 
 def explain(descr) -> str:
@@ -429,6 +466,11 @@ def prepare_case(d: dict, org: str, sc, model_ok: bool) -> Dict[str, Any]:
     m = {"descr": d, "origin": org, "ft": ft, "res": res, "anomalies": anom, "expr": None,
          "nroot": None if "exc" in res else sum(v for t, v in res["table_counts"].items() if t not in sc["parent"]),
          "root_class": d["objs"][d["root"]]["c"]}
+    if "exc" not in res and ft["altbase_objs"] >= 2 and (res["chain_disagree"] or res["py_iso"] is not None):
+        # matcher of finding C04-c: every loaded graph equals the input up to parent-provided scalars of ALTBASE objects
+        m["altbase_relaxed_ok"] = all(c04.py_iso(res["_root"], b, relax_altbase=True) is None for b in res["_backs"])
+    res.pop("_root", None)
+    res.pop("_backs", None)
     if "exc" not in res:
         counts = core.sx([[res["table_counts"][t] for t in tables], [res["assoc_counts"][t] for t in tags]])
         a_in = f"{c04.heap_term(heap5(heap))} {r}%nat"
@@ -462,6 +504,9 @@ def decide(rep: Report, m: Dict[str, Any], v, model_ok: bool, inst: Dict[str, in
         return
     # (d) loading through the other classes of the chain
     if res["chain_disagree"]:
+        if m.get("altbase_relaxed_ok") and inst.get("_c04c_open"):
+            inst["C04-c"] += 1
+            return
         bad.append((m, f"loading through a base DAO class gives a different graph: {res['chain_disagree']}"))
         return
     # (b) rows per table
@@ -477,6 +522,9 @@ def decide(rep: Report, m: Dict[str, Any], v, model_ok: bool, inst: Dict[str, in
             rep.oblige("correspondence:model", False, f"{m['origin']}: impl = spec but the model differs inside the fragment (contradicts C05_reload)")
         else:
             tallies["stale"] += 1
+        return
+    if code in (2, 3) and not in_f and m.get("altbase_relaxed_ok") and inst.get("_c04c_open"):
+        inst["C04-c"] += 1
         return
     if code in (2, 3) and not in_f:
         altc = ft["altcycle"] and not (frag & 1)
@@ -571,8 +619,10 @@ def run(tier: str, seed: int, replay=None) -> int:
     else:
         cdir = core.VERIF / "corpus" / PROP
         for f in sorted(cdir.glob("*.json")) if cdir.is_dir() else []:
-            descrs.append(json.loads(f.read_text())["case"])
-            origin.append(f"corpus/{PROP}/{f.name}")
+            c = json.loads(f.read_text())["case"]
+            if isinstance(c, dict) and "objs" in c:
+                descrs.append(c)
+                origin.append(f"corpus/{PROP}/{f.name}")
         rng = core.Rng(seed).fork(5)
         ncases = 300 if tier == "quick" else 4000
         nmodels, per_model = (6, 30) if tier == "quick" else (24, 120)
@@ -636,7 +686,8 @@ def run(tier: str, seed: int, replay=None) -> int:
         return rep.finish()
     codes = dict(zip(idx, vals))
 
-    inst = {"C05-a": 0, "C05-b": 0, "C04-a": 0}
+    inst = {"C05-a": 0, "C05-b": 0, "C04-a": 0, "C04-c": 0,
+            "_c04c_open": any(f.fid == "C04-c" and f.kind == "open" for f in findings)}
     tallies = {"in_F": 0, "stale": 0, "inexact": 0}
     bad: List[Tuple[dict, str]] = []
     for i, m in enumerate(metas):
@@ -645,6 +696,7 @@ def run(tier: str, seed: int, replay=None) -> int:
         rep.note(f"{tallies['stale']} cases outside the fragment where impl = spec but the model predicts a failure (model inexact there / finding repaired)")
     dist["in_F"] = tallies["in_F"]
     rep.extra["distribution"] = {"dataset": dist, "generated_models": gdist, "generated_model_info": gen_info}
+    inst.pop("_c04c_open", None)
     rep.extra["known_finding_instances"] = inst
     rep.extra["inexact_model_instances"] = {"C05-a": tallies["inexact"], "note": "the surviving link among sources sharing a self-referential target depends on "
                                             "SQLAlchemy's unit-of-work order; the model fixes one order, the harness accepts exactly the admissible outcomes"}
@@ -680,6 +732,17 @@ def run(tier: str, seed: int, replay=None) -> int:
     if replay is None:
         for f in findings:
             w = json.loads((core.VERIF / f.witness).read_text())
+            if f.cls == "K_altbase_tmp":
+                obs = c04.altbase_tmp_observe()
+                rep.extra["altbase_tmp"] = obs
+                if obs["wrong"] and obs["as_predicted"] and f.kind == "open":
+                    rep.known(f)
+                elif obs["wrong"]:
+                    rep.violation({"kind": "counterexample", "case": {"scenario": "altbase_tmp"}, "impl": obs,
+                                   "python": "from harness import c04; print(c04.altbase_tmp_scenario())"})
+                elif f.kind == "open":
+                    rep.note("known finding C04-c: the scenario no longer yields a wrong object (repaired, or the address was not reused)")
+                continue
             still = any(m["origin"] == f.witness and (m.get("code") == 2 or (f.cls == "K_selfref" and m.get("code") == 3 and
                         matches_admissible(m["descr"], m["res"]["_back"]))) for m in metas)
             if f.kind == "open":
